@@ -530,7 +530,7 @@ pub fn run(ctx: &mut Ctx) {
     // full random alphabet.
     // (every stretch length up to 600 as well: one operation may advance such a counter more than once, so that
     // an 8-bit one wraps at some W below 256; for 16-bit counters only the listed widths are tried)
-    let mut widths: Vec<usize> = if ctx.is_fuzz() { vec![255, 256, 257] } else { vec![65535, 65536, 65537, 131072] };
+    let mut widths: Vec<usize> = if ctx.is_fuzz() { vec![] } else { vec![65535, 65536, 65537, 131072] }; // not tape-driven: skipped under the fuzzer
     if !ctx.is_fuzz() {
         widths.extend(1..=600usize);
     }
